@@ -69,6 +69,13 @@ pub struct Scenario {
     /// filesystem capacity in bytes (0 = unlimited)
     #[serde(default)]
     pub capacity: u64,
+    /// O_DIRECT: alignment in bytes (0 = no file is opened with O_DIRECT) and the files opened that way
+    /// (bit i = file i). Offsets and lengths that are not multiples of the alignment must complete with
+    /// -EINVAL and without effect, exactly as File::read_at / write_at refuse them.
+    #[serde(default)]
+    pub direct_align: u64,
+    #[serde(default)]
+    pub direct_files: u8,
 }
 
 #[derive(Clone, Debug, Serialize, Deserialize)]
@@ -83,6 +90,10 @@ pub struct InSim {
     /// the restarted software drains the old handle: nothing may complete or take effect.
     #[serde(default)]
     pub leave_early: bool,
+    /// prologue: the program parks in AsyncFd::readable() on the idle ring; a second task of the host then
+    /// submits one entry with an unsupported flag, whose immediate -EINVAL completion must wake the parked one
+    #[serde(default)]
+    pub rejected_while_parked: bool,
 }
 
 pub struct C18;
@@ -90,6 +101,28 @@ pub struct C18;
 impl Scenario {
     /// One scenario in five runs on a disk that is (nearly) full: the initial contents fit exactly, later
     /// growth may hit ENOSPC, in-place overwrites must still succeed.
+    /// One scenario in six opens some files with O_DIRECT (alignment 4, 8 or 16 so that the small offsets
+    /// and lengths of the generator are a mix of aligned and misaligned ones); no page cache then.
+    fn with_direct(mut self, rng: &mut Rng) -> Self {
+        if rng.chance(1, 6) {
+            self.direct_align = *rng.pick(&[4u64, 8, 16]);
+            self.direct_files = rng.range(1, 7) as u8;
+            self.page_cache = false;
+            // bias offsets and lengths towards multiples of the alignment
+            let a = self.direct_align;
+            for op in self.ops.iter_mut() {
+                if let Op::Push { kind: SqeKind::Read { off, len, .. } | SqeKind::Write { off, len, .. }, .. } = op {
+                    if rng.chance(1, 2) {
+                        *off -= *off % a;
+                    }
+                    if rng.chance(1, 2) {
+                        *len -= *len % a as u32;
+                    }
+                }
+            }
+        }
+        self
+    }
     fn with_capacity(mut self, rng: &mut Rng) -> Self {
         if rng.chance(1, 5) {
             self.capacity = self.files.iter().map(|l| *l as u64).sum::<u64>() + rng.range(0, 30);
@@ -111,6 +144,9 @@ struct Outstanding {
     buf: usize,
     /// Some(r): the CQE carries this fixed result and has no effect (cancelled target, cancel op, bad flags)
     fixed: Option<i32>,
+    /// offset or length is not a multiple of the O_DIRECT alignment of its file: -EINVAL, no effect
+    /// (unless the file was closed before the completion is reaped: -EBADF as for every operation)
+    misaligned: bool,
 }
 
 struct RingM {
@@ -240,8 +276,11 @@ impl Property for C18 {
             ops,
             in_sim: None,
             capacity: 0,
+            direct_align: 0,
+            direct_files: 0,
         }
         .with_capacity(rng)
+        .with_direct(rng)
     }
 
     /// Fault enumeration: the program as is, plus a crash after every prefix.
@@ -263,11 +302,11 @@ impl Property for C18 {
             let tick_ms = 1 + base.fs_seed % 3;
             for crash in [0u32, 2, 3, 5, 9] {
                 let mut c = base.clone();
-                c.in_sim = Some(InSim { tick_ms, batch: 1 + (base.fs_seed >> 8) as u32 % 4, crash_before_step: crash, leave_early: false });
+                c.in_sim = Some(InSim { tick_ms, batch: 1 + (base.fs_seed >> 8) as u32 % 4, crash_before_step: crash, leave_early: false, rejected_while_parked: crash == 0 || crash == 9 });
                 v.push(c);
             }
             let mut c = base.clone();
-            c.in_sim = Some(InSim { tick_ms, batch: 8, crash_before_step: 2 + (base.fs_seed >> 12) as u32 % 4, leave_early: true });
+            c.in_sim = Some(InSim { tick_ms, batch: 8, crash_before_step: 2 + (base.fs_seed >> 12) as u32 % 4, leave_early: true, rejected_while_parked: false });
             v.push(c);
         }
         v
@@ -341,6 +380,10 @@ fn run_inner(sc: &Scenario, log: &mut Log, rep: &mut Report) -> Option<Violation
     if sc.capacity > 0 {
         cfg.capacity(sc.capacity);
     }
+    if sc.direct_align > 0 {
+        cfg.direct_io_alignment(sc.direct_align);
+    }
+    let is_direct = |f: usize| sc.direct_align > 0 && sc.direct_files >> f & 1 == 1;
     let mut w = World {
         fs: Arc::new(Mutex::new(Fs::new(cfg, sc.fs_seed))),
         iou: Arc::new(Mutex::new(IoUringHostState::new())),
@@ -357,7 +400,12 @@ fn run_inner(sc: &Scenario, log: &mut Log, rep: &mut Report) -> Option<Violation
             let f = sfs::OpenOptions::new().read(true).write(true).create(true).open(FILES[i]).expect("create file");
             f.write_at(&data, 0).expect("initial write (set-up runs before the capacity is lowered)");
             f.sync_all().expect("sync");
-            f
+            if is_direct(i) {
+                drop(f);
+                sfs::OpenOptions::new().read(true).write(true).direct_io(true).open(FILES[i]).expect("open O_DIRECT")
+            } else {
+                f
+            }
         });
         model.open(i as u8, FILES[i], &flags);
         model.write_at(i as u8, 0, &data);
@@ -417,8 +465,13 @@ fn run_inner(sc: &Scenario, log: &mut Log, rep: &mut Report) -> Option<Violation
                     SqeKind::Write { tag, .. } => pattern(*tag, len),
                     _ => Vec::new(),
                 };
+                // (an empty Vec has a dangling pointer: give zero-length transfers a real, malloc-aligned one)
+                let buf = if buf.is_empty() { Vec::with_capacity(16) } else { buf };
                 bufs.push(buf);
                 let ptr = bufs[buf_idx].as_mut_ptr();
+                if sc.direct_align > 0 && (ptr as usize) % sc.direct_align as usize != 0 {
+                    panic!("harness: buffer {ptr:?} is not aligned to {} (allocator assumption broken)", sc.direct_align);
+                }
                 let mut e: squeue::Entry = match kind {
                     SqeKind::Read { off, .. } => opcode::Read::new(types::Fd(fd), ptr, len).offset(*off).build(),
                     SqeKind::Write { off, .. } => opcode::Write::new(types::Fd(fd), ptr as *const u8, len).offset(*off).build(),
@@ -468,7 +521,7 @@ fn run_inner(sc: &Scenario, log: &mut Log, rep: &mut Report) -> Option<Violation
                 }
                 for (ud, kind, bad, buf) in std::mem::take(&mut rm.sq) {
                     if bad != 0 {
-                        rm.out.push(Outstanding { ud, kind, bad_flags: true, earliest: now_ns, latest: now_ns, buf, fixed: Some(EINVAL) });
+                        rm.out.push(Outstanding { ud, kind, bad_flags: true, earliest: now_ns, latest: now_ns, buf, fixed: Some(EINVAL), misaligned: false });
                         rep.probes.inc("unsupported_flags");
                         continue;
                     }
@@ -491,7 +544,7 @@ fn run_inner(sc: &Scenario, log: &mut Log, rep: &mut Report) -> Option<Violation
                                 rep.faults.inc("cancel_missed");
                                 ENOENT
                             };
-                            rm.out.push(Outstanding { ud, kind, bad_flags: false, earliest: now_ns, latest: now_ns, buf, fixed: Some(res) });
+                            rm.out.push(Outstanding { ud, kind, bad_flags: false, earliest: now_ns, latest: now_ns, buf, fixed: Some(res), misaligned: false });
                         }
                         k => {
                             let file_of = match k {
@@ -511,7 +564,19 @@ fn run_inner(sc: &Scenario, log: &mut Log, rep: &mut Report) -> Option<Violation
                             let (lo, hi) = if hit { (100, 100) } else { (sc.lat_min_ns, sc.lat_max_ns.max(sc.lat_min_ns)) };
                             let e = now_ns + lo;
                             let l = now_ns + hi;
-                            rm.out.push(Outstanding { ud, kind, bad_flags: false, earliest: e, latest: l, buf, fixed: None });
+                            let misaligned = match k {
+                                SqeKind::Read { off, len, .. } | SqeKind::Write { off, len, .. } => open_now && is_direct(file_of) && (*off % sc.direct_align != 0 || *len as u64 % sc.direct_align != 0),
+                                _ => false,
+                            };
+                            if misaligned {
+                                rep.probes.inc("misaligned_transfer_on_o_direct_file");
+                                if matches!(k, SqeKind::Read { .. }) {
+                                    frozen_bufs.push((buf, ud));
+                                }
+                            } else if open_now && is_direct(file_of) && matches!(k, SqeKind::Read { .. } | SqeKind::Write { .. }) {
+                                rep.probes.inc("aligned_transfer_on_o_direct_file");
+                            }
+                            rm.out.push(Outstanding { ud, kind, bad_flags: false, earliest: e, latest: l, buf, fixed: None, misaligned });
                         }
                     }
                 }
@@ -575,6 +640,8 @@ fn run_inner(sc: &Scenario, log: &mut Log, rep: &mut Report) -> Option<Violation
                         if handles[file].is_none() || !model.handles.contains_key(&(file as u8)) {
                             rep.probes.inc("op_on_closed_file");
                             EBADF
+                        } else if o.misaligned {
+                            EINVAL
                         } else {
                             match &o.kind {
                                 SqeKind::Read { off, len, .. } => match model.read_at(file as u8, *off, *len as usize) {
@@ -740,7 +807,14 @@ fn run_inner(sc: &Scenario, log: &mut Log, rep: &mut Report) -> Option<Violation
                 }
                 for fi in 0..nf {
                     if model.exists(FILES[fi]) {
-                        let f = w.entered(|| sfs::OpenOptions::new().read(true).write(true).open(FILES[fi]).expect("reopen"));
+                        let f = w.entered(|| {
+                            let mut o = sfs::OpenOptions::new();
+                            o.read(true).write(true);
+                            if is_direct(fi) {
+                                o.direct_io(true);
+                            }
+                            o.open(FILES[fi]).expect("reopen")
+                        });
                         handles[fi] = Some(f);
                         model.open(fi as u8, FILES[fi], &OpenFlags { read: true, write: true, ..Default::default() });
                     }
@@ -800,6 +874,8 @@ enum SimEv {
     Finished { content: Option<Vec<u8>> },
     /// the software returned with these submissions in flight (InSim::leave_early)
     LeftEarly,
+    /// prologue of InSim::rejected_while_parked: was the parked readable() woken, and what did it reap
+    RejectedWhileParked { woke: bool, reaped: Vec<(u64, i32)> },
     Error(String),
 }
 
@@ -848,6 +924,8 @@ fn run_in_sim(sc: &Scenario, log: &mut Log, rep: &mut Report) -> Option<Violatio
         let inc = inc.clone();
         let stash = stash.clone();
         let leave_early = ins.leave_early;
+        let rejected_while_parked = ins.rejected_while_parked && !ins.leave_early;
+        let tick_ms = ins.tick_ms;
         let pushes = pushes.clone();
         let init = init.clone();
         let batch = ins.batch.max(1) as usize;
@@ -919,6 +997,32 @@ fn run_in_sim(sc: &Scenario, log: &mut Log, rep: &mut Report) -> Option<Violatio
                         return Ok(());
                     }
                     let afd = AsyncFd::new(RingFd(std::os::fd::AsRawFd::as_raw_fd(&ring))).map_err(|e| e.to_string())?;
+                    let ring = Rc::new(RefCell::new(ring));
+                    if rejected_while_parked {
+                        let r2 = ring.clone();
+                        let tick = Duration::from_millis(tick_ms);
+                        tokio::task::spawn_local(async move {
+                            tokio::time::sleep(tick).await;
+                            let e = opcode::Fsync::new(fd).build().flags(squeue::Flags::IO_LINK).user_data(999_999);
+                            let mut r = r2.borrow_mut();
+                            unsafe {
+                                let _ = r.submission().push(&e);
+                            }
+                            let _ = r.submit();
+                        });
+                        // nothing is in flight: this parks until the other task's submission completes
+                        let woke = tokio::time::timeout(tick * 6, afd.readable()).await.map(|g| g.is_ok()).unwrap_or(false);
+                        let mut reaped = Vec::new();
+                        {
+                            let mut r = ring.borrow_mut();
+                            let mut cq = r.completion();
+                            cq.sync();
+                            for c in &mut cq {
+                                reaped.push((c.user_data(), c.result()));
+                            }
+                        }
+                        events.borrow_mut().push(SimEv::RejectedWhileParked { woke, reaped });
+                    }
                     for chunk in pushes.chunks(batch) {
                         let mut bufs: Vec<Vec<u8>> = Vec::new();
                         for (_, kind) in chunk {
@@ -935,13 +1039,14 @@ fn run_in_sim(sc: &Scenario, log: &mut Log, rep: &mut Report) -> Option<Violatio
                                 _ => opcode::Fsync::new(fd).build(),
                             }
                             .user_data(*ud);
-                            unsafe { ring.submission().push(&e).map_err(|e| e.to_string())? };
+                            unsafe { ring.borrow_mut().submission().push(&e).map_err(|e| e.to_string())? };
                         }
-                        ring.submit().map_err(|e| e.to_string())?;
+                        ring.borrow().submit().map_err(|e| e.to_string())?;
                         events.borrow_mut().push(SimEv::Submitted { uds: chunk.iter().map(|c| c.0).collect(), at_us: turmoil::elapsed().as_micros() as u64 });
                         let mut got = 0;
                         while got < chunk.len() {
                             let _g = afd.readable().await.map_err(|e| e.to_string())?;
+                            let mut ring = ring.borrow_mut();
                             let mut cq = ring.completion();
                             cq.sync();
                             for c in &mut cq {
@@ -1065,6 +1170,17 @@ fn run_in_sim(sc: &Scenario, log: &mut Log, rep: &mut Report) -> Option<Violatio
                 log.tag("crash");
             }
             SimEv::Error(e) => return Some(Violation::new("SimError", format!("in-Sim host program failed: {e}"))),
+            SimEv::RejectedWhileParked { woke, reaped } => {
+                log.ev(format!("sim parked in readable(), another task submitted an entry with an unsupported flag: woke={woke} reaped={reaped:?}"));
+                log.tag("parked");
+                rep.probes.inc("in_sim_parked_reader_woken_by_rejected_submission");
+                if !*woke || reaped.is_empty() {
+                    return Some(Violation::new("LostCompletion", format!("in-Sim: a task parked in AsyncFd::readable() on an idle ring was not woken within 6 ticks by the immediate completion of an entry with an unsupported flag submitted by another task (woke={woke}, reaped={reaped:?})")));
+                }
+                if reaped != &[(999_999u64, EINVAL)] {
+                    return Some(Violation::new("CqeResult", format!("in-Sim: the entry with an unsupported flag completed as {reaped:?}, expected one CQE (999999, -EINVAL)")));
+                }
+            }
             SimEv::LeftEarly => {
                 log.ev("sim host software returned with its submissions in flight");
                 log.tag("left");
